@@ -24,6 +24,7 @@ import (
 
 	"github.com/zeromicro/go-zero/internal/verifkit"
 	rapid "github.com/zeromicro/go-zero/internal/verifrapid"
+	"github.com/zeromicro/go-zero/tools/goctl/pkg/parser/api/format"
 	"github.com/zeromicro/go-zero/tools/goctl/pkg/parser/api/token"
 )
 
@@ -221,6 +222,7 @@ func TestVerifC20Regress(t *testing.T) {
 }
 
 const clauseErrors = "scanner and parser report errors for invalid sources"
+const clauseFormats = "formatting succeeds (format.File is format.Source on the file's bytes)"
 
 func oneLine(s string) string {
 	if i := strings.IndexByte(s, '\n'); i >= 0 {
@@ -339,6 +341,7 @@ func TestVerifC20Valid(t *testing.T) {
 	known := assumed()
 	maxStmts := verifkit.EnvInt("c20_maxstmts", 6)
 	var total, rejected int
+	fileDir := t.TempDir()
 	rapid.Check(t, func(t *rapid.T) {
 		g := newGen(t, false, known)
 		g.program(maxStmts)
@@ -393,6 +396,42 @@ func TestVerifC20Valid(t *testing.T) {
 		}
 		if !v.ok {
 			t.Fatalf("C20 clause %q violated: %s\nsource:\n%s", v.clause, v.detail, visible(src))
+		}
+		// format.File is format.Source applied to the file in place: same verdict, same bytes — for the
+		// program as generated and with its line ends turned into CR LF (whatever the parser makes of
+		// those, both entry points must make the same of them)
+		if rapid.IntRange(0, 3).Draw(t, "viaFile") == 0 {
+			content := src
+			if rapid.Bool().Draw(t, "crlf") {
+				content = strings.ReplaceAll(src, "\n", "\r\n")
+				st.Class("file-route:crlf")
+			} else {
+				st.Class("file-route:lf")
+			}
+			want := runFormat(content)
+			path := fileDir + "/c20.api"
+			if err := os.WriteFile(path, []byte(content), 0o600); err != nil {
+				st.Note("cannot write %s: %v", path, err)
+			} else if !want.hung && want.panicked == "" {
+				got := guarded(func() (string, error) {
+					err := format.File(path)
+					b, rerr := os.ReadFile(path)
+					if rerr != nil {
+						return "", rerr
+					}
+					return string(b), err
+				})
+				switch {
+				case got.hung || got.panicked != "":
+					t.Fatalf("C20 clause %q violated: format.File hung or panicked (%s) on a file that format.Source handles\n%s", clauseFormats, got.panicked, visible(content))
+				case (want.err == nil) != (got.err == nil):
+					t.Fatalf("C20 clause %q violated: format.Source and format.File disagree on the same bytes: Source err=%v, File err=%v\n%s", clauseFormats, want.err, got.err, visible(content))
+				case want.err == nil && got.out != want.out:
+					t.Fatalf("C20 clause %q violated: format.File wrote something else than format.Source produces for the same bytes: %s\nsource:\n%s", clauseFormats, firstDiff(want.out, got.out), visible(content))
+				case want.err != nil && got.out != content:
+					t.Fatalf("C20 violated: format.File failed (%v) and still changed the file\n%s", got.err, visible(content))
+				}
+			}
 		}
 		for k, n := range g.kinds {
 			st.ClassN("stmt-"+k, n)
